@@ -5,8 +5,8 @@
 //!   map-desc M which src dst kind d             -> ok d' | err e                         kind = f | m | r
 //!   map-member M kind src dst supers owner n d  -> ok ((fail?) (mapped?) (ref?))         kind = f | m
 //!   map-mref M src dst supers class n d         -> ok (class n d) | err e
-//!   oracle-mapclass-spec, oracle-desc-shape, oracle-desc-rejects, oracle-member-resolution, oracle-member-nearest
-//!   (+ oracle-member-nearest-full: the same without its domain, only for replaying the known finding),
+//!   oracle-mapclass-spec, oracle-desc-shape, oracle-desc-rejects, oracle-member-resolution (= oracle-member-nearest
+//!   = oracle-member-nearest-full, aliases kept for the recorded finding line),
 //!   oracle-fallback, oracle-roundtrip-class, oracle-roundtrip-desc, oracle-roundtrip-member
 //! supers = ((class (super…))…), first matching row is the answer of the `SuperClassProvider`.
 use std::collections::HashMap;
@@ -711,7 +711,6 @@ fn exec(op: &str, args: &[Sexp]) -> Ans {
 				if kind != "f" && kind != "m" { return Ans::BadOp("kind".into()); }
 				let (prov, plain) = tr!(supers_from(sup));
 				let (owner, nm, d) = (tr!(owner.as_jstring()), tr!(nm.as_jstring()), tr!(d.as_jstring()));
-				let (s_i, d_i) = (tr!(src.as_nat()), tr!(dst.as_nat()));
 				let (Ok(src), Ok(dst)) = (ns!(N, src), ns!(N, dst)) else { return Ans::out_of_domain() };
 				let Ok(b) = m.remapper_b(src, dst, &prov) else { return Ans::out_of_domain() };
 				if op == "oracle-fallback" {
@@ -720,43 +719,21 @@ fn exec(op: &str, args: &[Sexp]) -> Ans {
 					return if q_map(&b, kind, &owner, &nm, &d).ok() == spec { Ans::pass() } else { Ans::fail("differs") };
 				}
 				let Ok(b0) = m.remapper_b(src, dst, NoSuperClassProvider::new()) else { return Ans::out_of_domain() };
-				if op == "oracle-member-nearest" || op == "oracle-member-nearest-full" {
-					// the pre-order of the provider's graph (whether or not the classes have a mapping); domain: all of them have one
-					fn dfs_all(plain: &[(JavaString, Vec<JavaString>)], fuel: usize, o: &JavaStr, out: &mut Vec<JavaString>) -> Option<()> {
-						if fuel == 0 { return None; }
-						out.push(o.to_owned());
-						if let Some((_, ss)) = plain.iter().find(|(k, _)| **k == *o) {
-							for s in ss { dfs_all(plain, fuel - 1, s, out)?; }
-						}
-						Some(())
-					}
-					let mut order = Vec::new();
-					if dfs_all(&plain, plain.len() + 1, &owner, &mut order).is_none() { return Ans::out_of_domain(); }
-					// `-full`: the statement without the domain (never generated; replayed for the known finding)
-					if op == "oracle-member-nearest" {
-						for c in &order {
-							match b0.map_class_fail(ocs(c)) { Ok(Some(_)) => {}, _ => return Ans::out_of_domain() }
-						}
-					}
-					let spec = order.iter().find_map(|c| q_fail(&b0, kind, c, &nm, &d).ok().flatten());
-					return match q_fail(&b, kind, &owner, &nm, &d) { Ok(x) if x == spec => Ans::pass(), Ok(_) => Ans::fail("differs"), Err(_) => Ans::fail("err") };
-				}
-				let pairs = class_pairs(&rows_of(&m), s_i, d_i);
-				let mut distinct: Vec<&JavaString> = Vec::new();
-				for p in &pairs { if !distinct.contains(&&p.0) { distinct.push(&p.0); } }
-				let fuel = distinct.len() + 1;
-				// pre-order over the classes that have a mapping, super types in declaration order; None = depth bound hit
-				fn dfs<B: BRemapper>(b0: &B, plain: &[(JavaString, Vec<JavaString>)], fuel: usize, o: &JavaStr, out: &mut Vec<JavaString>) -> Option<()> {
+				// member_resolution / member_resolution_nearest (one statement since c873813; `-nearest-full` is an alias kept
+				// so that the request line recorded for the fixed finding C06-unmapped-owner-hides-supers still replays):
+				// the answer is the first declaration along the pre-order of the provider's graph from the owner, whether
+				// or not the classes on the way have a mapping. None = depth bound hit (cyclic provider): out of domain.
+				fn dfs(plain: &[(JavaString, Vec<JavaString>)], fuel: usize, o: &JavaStr, out: &mut Vec<JavaString>) -> Option<()> {
 					if fuel == 0 { return None; }
-					if b0.map_class_fail(ocs(o)).ok()?.is_none() { return Some(()); }
 					out.push(o.to_owned());
 					if let Some((_, ss)) = plain.iter().find(|(k, _)| **k == *o) {
-						for s in ss { dfs(b0, plain, fuel - 1, s, out)?; }
+						for s in ss { dfs(plain, fuel - 1, s, out)?; }
 					}
 					Some(())
 				}
 				let mut order = Vec::new();
-				if dfs(&b0, &plain, fuel, &owner, &mut order).is_none() { return Ans::out_of_domain(); }
+				if dfs(&plain, plain.len() + 1, &owner, &mut order).is_none() { return Ans::out_of_domain(); }
+				// what a class declares itself: the remapper without a provider
 				let spec = order.iter().find_map(|c| q_fail(&b0, kind, c, &nm, &d).ok().flatten());
 				match q_fail(&b, kind, &owner, &nm, &d) { Ok(x) if x == spec => Ans::pass(), Ok(_) => Ans::fail("differs"), Err(_) => Ans::fail("err") }
 			}
